@@ -62,9 +62,9 @@ def report(pid, violations, max_lines=15):
                 print("VIOLATION property=%s replay=%s" % (pid, p))
                 print("  env=%s monitor=%s%s inst=%s actions=%s %s"
                       % (v["env"], v["monitor"], " cls=" + v["cls"] if v.get("cls") else "",
-                         json.dumps({k: x for k, x in v["inst"].items() if k not in ("D", "pts")},
+                         json.dumps({k: x for k, x in v["inst"].items() if k not in ("D", "pts", "mask")},
                                     default=str)[:300],
-                         v["actions"], str(v.get("detail", ""))[:300]))
+                         str(v["actions"])[:200], str(v.get("detail", ""))[:300]))
             n += 1
     return sum(len(x) for x in new.values()), sum(len(x) for x in old.values())
 
